@@ -253,6 +253,7 @@ func genRetry(p proto, t *simrt.Tape, tier string) *ccCfg {
 	k := cell[2]
 	T := cfg.T
 	cfg.hb = false
+	cfg.raw = p.Name() == "v4" && t.Coin(1, 5)
 	cfg.pool = poolOf(p, 3)
 	sp := callSpec{xid: cfg.pool[0], mk: mkType}
 	if t.Coin(1, 4) {
